@@ -1,4 +1,4 @@
-import Xp.Proofs.C16Interf
+import Xp.Proofs.C16Refs
 import Xp.Gen.C16
 /-
 C16 — establishing package objects is all-or-nothing and respects the
@@ -705,5 +705,123 @@ example : establishI exOk Fault.none { mid := [.put ⟨"Composition/c", 0, [⟨9
        .err .conflict) := by decide
 
 end InterfExamples
+
+/-! ## 8. `status.objectRefs` and deactivation
+
+"Deactivation gives up control" rests on `status.objectRefs`: `ReleaseObjects` walks
+that list and nothing else, and the reconciler of an inactive revision stops right
+after it when the list is not empty. So the list must never lose an object the
+revision controls. Vocabulary (Xp/Proofs/C16Refs.lean):
+  `Listed sys u`      — every object revision `u` controls is in `sys.refs u`
+  `Stable sys u K`    — `Listed sys u`, and every package key (`K`) is in `sys.refs u`
+                        (what a healthy revision has after a successful reconcile)
+  `NotCtrlBy o u`     — `u`'s owner entry on `o` (the first with its uid, as the code
+                        looks it up), if any, is not a controller reference
+  `BenignStep`/`Benign` — the steps of a history are reconciles of other revisions,
+                        inactive reconciles, or FAILED reconciles of `u` over its package -/
+
+/-- **`status.objectRefs` is only replaced by a successful Establish**, whoever
+interferes: a reconcile that does not end in success (validation failure, an API
+error or a crash at any call, including a real write of the establish phase after a
+clean validation) leaves the lists of ALL revisions exactly as they were; and a
+reconcile never touches the list of another revision. -/
+theorem failed_establish_keeps_object_refs (sys : Sys) (r : Rev) (e : Env) (tp : Interf) :
+    ((reconcileRevI sys r e tp).2 ≠ .ok () → (reconcileRevI sys r e tp).1.refs = sys.refs) ∧
+    (∀ v, v ≠ r.parent.uid → (reconcileRevI sys r e tp).1.refs v = sys.refs v) :=
+  reconcileRevI_refs sys r e tp
+
+/-- **Establish writes objects of the package only**: an object of the store after
+Establish is an untouched old object or has the key of a package object. -/
+theorem establish_writes_package_objects_only (rejects : Obj → Bool) (fault : Fault) (p : Parent) (control : Bool)
+    (s : Store) (objs : List Desired) (vorder eorder : List Nat) :
+    ∀ o' ∈ (establish rejects fault p control s objs vorder eorder).1.objs,
+      o' ∈ s.objs ∨ ∃ d ∈ objs, d.key = o'.key :=
+  establish_keys rejects fault p control s objs vorder eorder
+
+/-- **A successful inactive reconcile gives up all control** (under interference): if
+everything the revision controls is listed in its `status.objectRefs` and every
+ReleaseObjects goroutine is in the completion order, then after a reconcile of the
+inactive revision that reports success, the revision is the controller of no
+object (objects put by the third party aside). -/
+theorem inactive_reconcile_gives_up_control (sys sys' : Sys) (r : Rev) (e : Env) (tp : Interf)
+    (hw : WF sys.store) (hr : r.active = false) (hl : Listed sys r.parent.uid)
+    (ho : ∀ j, j < (sys.refs r.parent.uid).length → j ∈ e.rorder)
+    (h : reconcileRevI sys r e tp = (sys', .ok ())) :
+    ∀ o' ∈ sys'.store.objs, PutBy tp.Puts o' ∨ NotCtrlBy o' r.parent.uid :=
+  reconcileRevI_released sys sys' r e tp hw hr hl ho h
+
+/-- **A healthy revision stays fully listed** (induction over the history): `Stable`
+survives every history made of reconciles of other revisions (upgrades, rollbacks,
+competing packages), inactive reconciles, and *failed* active reconciles of the
+revision itself over its package — under every fault plan and goroutine order. -/
+theorem healthy_revision_stays_listed (sys : Sys) (h : List (Rev × Env)) (hw : WF sys.store)
+    (u : Nat) (K : String → Prop) (hs : Stable sys u K) (hb : Benign u K sys h) :
+    WF (runHistory sys h).store ∧ Stable (runHistory sys h) u K :=
+  stable_history sys h hw u K hs hb
+
+/-- **History theorem: after a successful release the revision controls nothing.**
+Take a healthy revision `u` (`Stable`), any benign history `h` (in particular: one
+or more reconciles of `u` that pass validation and fail at a real write; the
+package manager activating another revision; that revision being reconciled first
+or later), and then a reconcile of `u` as inactive that reports success. Afterwards
+`u` is the controller of no object at all — so the next active revision can take
+every object over. -/
+theorem deactivation_gives_up_control_history (sys sys' : Sys) (h : List (Rev × Env)) (hw : WF sys.store)
+    (K : String → Prop) (r : Rev) (e : Env) (hs : Stable sys r.parent.uid K) (hb : Benign r.parent.uid K sys h)
+    (hr : r.active = false)
+    (ho : ∀ j, j < ((runHistory sys h).refs r.parent.uid).length → j ∈ e.rorder)
+    (hok : reconcileRev (runHistory sys h) r e = (sys', .ok ())) :
+    ∀ o' ∈ sys'.store.objs, NotCtrlBy o' r.parent.uid := by
+  have ⟨hw1, hs1⟩ := stable_history sys h hw r.parent.uid K hs hb
+  intro o' ho'
+  rw [← reconcileRevI_none] at hok
+  rcases reconcileRevI_released _ sys' r e Interf.none hw1 hr hs1.listed ho hok o' ho' with ⟨a, ha, _⟩ | h1
+  · rcases ha with ha | ⟨_, ha⟩ <;> cases ha
+  · exact h1
+
+section RefsExamples
+
+/-- revision 10 is active and healthy: it controls `b` and `c`, both listed -/
+def exStore3 : Store :=
+  ⟨[⟨"Composition/b", 1, [⟨10, some true, some true⟩, ⟨1, some false, some true⟩], 1⟩,
+    ⟨"Composition/c", 2, [⟨10, some true, some true⟩, ⟨1, some false, some true⟩], 1⟩], 3, []⟩
+def exSys3 : Sys := ⟨exStore3, fun u => if u = 10 then [⟨"Composition/b", true⟩, ⟨"Composition/c", true⟩] else []⟩
+def exPkg : List Desired := [{ key := "Composition/b", body := 1 }, { key := "Composition/c", body := 1 }]
+def exEnv2 : Env := ⟨exOk, Fault.none, [0, 1], [0, 1], [0, 1], exAll, id⟩
+/-- validation passes, the REAL update of the second object is answered with an API error -/
+def exEnvFail : Env := { exEnv2 with fault := fun i ph => if i = 1 ∧ ph = .real then .fail else .ok }
+
+/-- the hypotheses of `deactivation_gives_up_control_history` hold for this state and the
+history "one reconcile that fails at a real write" … -/
+example : Stable exSys3 10 (fun k => k = "Composition/b" ∨ k = "Composition/c") := by
+  refine ⟨?_, ?_⟩
+  · intro o ho _
+    simp [exSys3, exStore3] at ho
+    rcases ho with rfl | rfl <;> simp [exSys3]
+  · intro key hk
+    rcases hk with rfl | rfl <;> simp [exSys3]
+
+example : (reconcileRev exSys3 ⟨exRev10, true, exPkg⟩ exEnvFail).2 = .err .other := by decide
+
+/-- … the failed reconcile keeps the list, the release then covers both objects, and
+revision 10 ends up as plain owner of both (the conclusion is reached, not vacuous) -/
+example :
+    let sys1 := (reconcileRev exSys3 ⟨exRev10, true, exPkg⟩ exEnvFail).1
+    let sys2 := (reconcileRev sys1 ⟨exRev10, false, exPkg⟩ exEnv2)
+    sys1.refs 10 = [⟨"Composition/b", true⟩, ⟨"Composition/c", true⟩] ∧ sys2.2 = .ok () ∧
+    sys2.1.store.objs.map (·.owners) =
+      [[⟨10, some false, some true⟩, ⟨1, some false, some true⟩], [⟨10, some false, some true⟩, ⟨1, some false, some true⟩]] := by
+  decide
+
+/-- `Listed` is what the guarantee needs: were the list to lose `c` (what recording a
+partial list after the failed reconcile would do), the same inactive reconcile would
+still report success and revision 10 would remain the controller of `c`. -/
+example :
+    let sys2 := reconcileRev ⟨exStore3, fun u => if u = 10 then [⟨"Composition/b", true⟩] else []⟩ ⟨exRev10, false, exPkg⟩ exEnv2
+    sys2.2 = .ok () ∧ (sys2.1.store.get "Composition/c").map (·.owners) =
+      some [⟨10, some true, some true⟩, ⟨1, some false, some true⟩] := by
+  decide
+
+end RefsExamples
 
 end Xp.C16
